@@ -26,8 +26,10 @@ func init() {
 	})
 }
 
-// bitWidth evaluates populate's formula ceil(log2(max))+1.
-func bitWidth(max int64) int { return int(math.Ceil(math.Log2(float64(max)))) + 1 }
+// bitWidth evaluates populate's formula ceil(log2(max))+k (k = 1 in the pinned tree; read from the source).
+func bitWidth(max int64) int { return int(math.Ceil(math.Log2(float64(max)))) + populateExtraBits }
+
+var populateExtraBits = 1
 
 // checkPopulate validates the bit-packing helper structurally: value is OR-ed in at the
 // current offset and the offset advances by ceil(log2(maxValue))+1.
@@ -55,7 +57,8 @@ func (p *Prog) checkPopulate(r *Report, rule string) bool {
 				}
 			case token.ADD:
 				// ceil(log2(float64(max))) + 1
-				if k, ok := constInt(x.Y); ok && k == 1 {
+				if k, ok := constInt(x.Y); ok && k >= 1 {
+					populateExtraBits = int(k)
 					if cv, ok := x.X.(*ssa.Convert); ok {
 						if c1, ok := cv.X.(*ssa.Call); ok && staticCallee(c1) != nil && staticCallee(c1).String() == "math.Ceil" {
 							if c2, ok := c1.Call.Args[0].(*ssa.Call); ok && staticCallee(c2) != nil && staticCallee(c2).String() == "math.Log2" {
